@@ -31,7 +31,7 @@ Proof. unfold gq_of_sq, surf_f; tsimp; ring. Qed.
 
 (** ** SurfaceTranslator: f' (p + t) = f p
     [translate_surface = translate_surface_gen true] is the translator as coded
-    (since the repair 9730bb5); the pre-repair variant ([... false]) is off by
+    (since the repair 564387d); the pre-repair variant ([... false]) is off by
     first . t  for a SimpleQuadric (translate_sq_refuted). *)
 Theorem translate_value_gen fixed tra s p :
   surf_f (translate_surface_gen fixed tra s) (tr_up tra p)
